@@ -21,17 +21,17 @@ Updates(m) == LET names == SetToSeq(DOMAIN m) IN [i \in DOMAIN names |-> <<names
 PropsOf(v, p) == IF p \in DOMAIN v.props THEN v.props[p] ELSE EmptyMap
 
 ChanSeg(v, c) ==
-  [objs |-> <<[p |-> c, has |-> v.ty[c] # "none", n |-> v.len[c], pu |-> Updates(PropsOf(v, c))]>>,
+  [objs |-> <<[p |-> c, has |-> v.ty[c] # "none", n |-> v.len[c], sv |-> 0, pu |-> Updates(PropsOf(v, c))]>>,
    k |-> IF v.len[c] > 0 THEN 1 ELSE 0, il |-> FALSE, be |-> FALSE]
 
 RECURSIVE ConcatSeq(_)
 ConcatSeq(ss) == IF ss = <<>> THEN <<>> ELSE Head(ss) \o ConcatSeq(Tail(ss))
 
 DefragSegs(v) ==
-  <<[objs |-> <<[p |-> Root, has |-> FALSE, n |-> 0, pu |-> Updates(PropsOf(v, Root))]>>,
+  <<[objs |-> <<[p |-> Root, has |-> FALSE, n |-> 0, sv |-> 0, pu |-> Updates(PropsOf(v, Root))]>>,
      k |-> 0, il |-> FALSE, be |-> FALSE]>>
   \o ConcatSeq([g \in DOMAIN v.groups |->
-        <<[objs |-> <<[p |-> v.groups[g], has |-> FALSE, n |-> 0, pu |-> Updates(PropsOf(v, v.groups[g]))]>>,
+        <<[objs |-> <<[p |-> v.groups[g], has |-> FALSE, n |-> 0, sv |-> 0, pu |-> Updates(PropsOf(v, v.groups[g]))]>>,
            k |-> 0, il |-> FALSE, be |-> FALSE]>>
         \o [i \in DOMAIN v.gchans[v.groups[g]] |-> ChanSeg(v, v.gchans[v.groups[g]][i])]])
 
